@@ -94,6 +94,11 @@ def tally_case(draw):
             c["pair_adapters"] = True
             c["revcomp"] = False
             c["times"] = 1
+    if c["paired"] and c["ad1"] and not c["pair_adapters"] and draw(st.integers(0, 5)) == 0:
+        # the same named adapters for both reads (as with one adapter FASTA file given to -a and -A): the two
+        # sides must still be tallied separately
+        c["ad2"] = [dict(d, opt=d["opt"].upper()) for d in c["ad1"]]
+        c["same_adapters_both_reads"] = True
     c["reads1"] = [s.upper() for s in c["reads1"]]
     if c["reads2"] is not None:
         c["reads2"] = [s.upper() for s in c["reads2"]]
@@ -140,6 +145,8 @@ def check_tally(case, ctx):
         ctx.label("revcomp")
     if case["pair_adapters"]:
         ctx.label("pair-adapters")
+    if case.get("same_adapters_both_reads"):
+        ctx.label("same-named-adapters-on-both-reads")
     any_rc = any(i.is_rc for i in infos1)
     nt = False
     for side, (ads, infos, key) in enumerate(((ad1, infos1, "adapters_read1"), (ad2, infos2, "adapters_read2"))):
